@@ -1,7 +1,7 @@
 """C09 — stored documents are returned exactly: only the code tables of the doc store."""
 from .. import codetab as ct
 from ..rules import get_body, short, calls_to, site
-from ..model import Ev, must_precede, op_local, trace_back, provenance, place_local
+from ..model import Ev, must_precede, op_local, op_place, trace_back, provenance, place_local
 
 D = "tantivy::store::decompressors::Decompressor"
 SE = "tantivy::schema::document::se::BinaryValueSerializer::<'se, W>::"
@@ -20,6 +20,49 @@ def run(rep, prog, tier):
     r5(rep, prog)
     r6(rep, prog)
     r7(rep, prog)
+    r8(rep, prog)
+
+
+def r8(rep, prog):
+    """a merge copies stored documents as bytes only between stores of the same format"""
+    import re
+    R = "C09-R8"
+    rep.rule(R, "raw copies only between equal formats: IndexMerger::write_storable_fields copies stored documents as bytes (StoreWriter::store_bytes) or whole compressed blocks (StoreWriter::stack), and the merged store's footer always says the current format. The source may be a store written by an older release (V1: dates in microseconds; V2: nanoseconds): each raw copy must therefore be preceded, on every path, by a call that looks at the SOURCE store's doc_store_version (a guard, or a helper that re-encodes old documents); otherwise a merge silently reinterprets the stored dates of an old segment (x1000 too small)")
+    fid = "tantivy::indexer::merger::IndexMerger::write_storable_fields"
+    b = get_body(rep, prog, R, fid)
+    if b is None:
+        return
+    RAW = re.compile(r"store::writer::StoreWriter::(store_bytes|stack)$")
+    raws = [(bi, t) for bi, t in b.calls() if RAW.search(t.get("f") or "")]
+    if not rep.check(len(raws) >= 2, R, "raw copy sites in write_storable_fields", "%d" % len(raws), "cannot establish: write_storable_fields has %d store_bytes / stack sites" % len(raws), site=b.span):
+        return
+    # callees that read the source reader's version (directly or one level down)
+    VERS = set()
+    for n2, b2 in prog.bodies.items():
+        if n2.lstrip("<").startswith("tantivy::store::reader::StoreReader::") and "{closure" not in n2:
+            al_fields = [x for bi2 in b2.normal_blocks() for st in b2.stmts(bi2) for x in proj_fields_of(st)]
+            if "doc_store_version" in al_fields and not n2.endswith(("::open", "::get", "::iter")):
+                VERS.add(n2)
+    looks = [Ev(bi, "term") for bi, t in b.calls() if (t.get("res") or t.get("f") or "") in VERS]
+    for bi, t in raws:
+        bad = must_precede(b, looks, [Ev(bi, "term")]) if looks else [1]
+        rep.check(not bad, R, "%s at bb%d happens after the source store's format was looked at" % ((t.get("f") or "").split("::")[-1], bi), "%d version-reading call(s) precede it" % len(looks),
+                  "IndexMerger::write_storable_fields copies stored documents with %s without ever looking at the doc_store_version of the source StoreReader: the merged store is stamped with the current version, so the "
+                  "documents of a segment written in the older format are reinterpreted — the stored date 00:00:00.000123 of tests/compat_tests_data/index_v6 reads 00:00:00.000000123 after a merge" % (t.get("f") or "").split("::")[-1], site=site(b, bi))
+
+
+def proj_fields_of(st):
+    """field names read or written by one MIR statement (projections of its places)"""
+    out = []
+    from ..model import proj_fields
+    for pl in [st.get("d"), st.get("p")] + [op_place(o) for o in st.get("o", [])]:
+        if pl is None or isinstance(pl, int):
+            continue
+        try:
+            out += [f[1] for f in proj_fields(pl)]
+        except Exception:
+            pass
+    return out
 
 
 def r7(rep, prog):
